@@ -1,6 +1,7 @@
 import UralModel.Lemmas.UrlRoundTrip
 import UralModel.Lemmas.Canonicalize
 import UralModel.Model.CanonicalizeUrl
+import UralModel.Lemmas.Str
 /-!
 # `canonicalize_url` prints well-formed 5-tuples
 
@@ -567,5 +568,253 @@ theorem noCtl_requote (quoted : Bool) (U : List UInt8) {s : Str} (h : NoCtl s) :
   split
   · exact noCtl_safelyQuote _
   · exact noCtl_safelyUnquote U h
+
+/-! ## shape of `normpath` on an absolute path -/
+
+/-- no two adjacent slashes -/
+def NoDbl : Str → Prop
+  | a :: b :: r => ¬ (a = '/' ∧ b = '/') ∧ NoDbl (b :: r)
+  | _ => True
+
+theorem squeeze_head (s : Str) : (squeezeSlashes s).head? = s.head? := by
+  induction s using squeezeSlashes.induct with
+  | case1 => rfl
+  | case2 rest ih => rw [squeezeSlashes, ih]; rfl
+  | case3 c rest hne => rw [squeezeSlashes]; rfl; exact hne
+
+theorem squeeze_subset (s : Str) : squeezeSlashes s ⊆ s := by
+  induction s using squeezeSlashes.induct with
+  | case1 => simp [squeezeSlashes]
+  | case2 rest ih =>
+    rw [squeezeSlashes]
+    intro x hx; have := ih hx; simp at this ⊢; exact this
+  | case3 c rest hne ih =>
+    rw [squeezeSlashes]
+    · intro x hx; simp only [List.mem_cons] at hx ⊢
+      rcases hx with h | h
+      · exact Or.inl h
+      · exact Or.inr (ih h)
+    · exact hne
+
+theorem noDbl_squeeze (s : Str) : NoDbl (squeezeSlashes s) := by
+  induction s using squeezeSlashes.induct with
+  | case1 => simp [squeezeSlashes, NoDbl]
+  | case2 rest ih => rw [squeezeSlashes]; exact ih
+  | case3 c rest hne ih =>
+    rw [squeezeSlashes]
+    · cases hsq : squeezeSlashes rest with
+      | nil => simp [NoDbl]
+      | cons b r =>
+        rw [hsq] at ih
+        refine ⟨?_, ih⟩
+        rintro ⟨rfl, rfl⟩
+        have hh := squeeze_head rest
+        rw [hsq] at hh
+        cases rest with
+        | nil => simp at hh
+        | cons d rest' =>
+          simp only [List.head?_cons, Option.some.injEq] at hh
+          subst hh
+          exact hne rest' rfl rfl
+    · exact hne
+
+/-- every piece but the first and the last is non-empty -/
+def InnerNonempty : List Str → Prop
+  | a :: b :: r => (b ≠ [] ∨ r = []) ∧ InnerNonempty (b :: r)
+  | _ => True
+
+theorem noDbl_tail {c : Char} {s : Str} (h : NoDbl (c :: s)) : NoDbl s := by
+  cases s with
+  | nil => simp [NoDbl]
+  | cons b r => exact h.2
+
+theorem innerNonempty_splitOn (t : Str) (h : NoDbl t) : InnerNonempty (splitOn t '/') := by
+  induction t with
+  | nil => simp [splitOn_nil, InnerNonempty]
+  | cons c cs ih =>
+    have ih' := ih (noDbl_tail h)
+    by_cases hc : c = '/'
+    · subst hc
+      rw [splitOn_cons_sep]
+      cases hsp : splitOn cs '/' with
+      | nil => exact absurd hsp (splitOn_ne_nil cs '/')
+      | cons b r =>
+        rw [hsp] at ih'
+        refine ⟨?_, ih'⟩
+        cases cs with
+        | nil => rw [splitOn_nil] at hsp; cases hsp; right; rfl
+        | cons d ds =>
+          have hd : d ≠ '/' := fun e => h.1 ⟨rfl, e⟩
+          rw [splitOn_cons_ne _ _ _ hd] at hsp
+          left
+          cases h2 : splitOn ds '/' with
+          | nil => rw [h2] at hsp; cases hsp; simp
+          | cons p ps => rw [h2] at hsp; cases hsp; simp
+    · rw [splitOn_cons_ne _ _ _ hc]
+      cases hsp : splitOn cs '/' with
+      | nil => exact absurd hsp (splitOn_ne_nil cs '/')
+      | cons b r =>
+        rw [hsp] at ih'
+        simp only
+        cases r with
+        | nil => simp [InnerNonempty]
+        | cons b2 r2 => exact ih'
+
+theorem withSlashes_heads (L : List Str) (hs : ∀ x ∈ L, '/' ∉ x) (hi : InnerNonempty L)
+    (h1 : ∀ a b r, L = a :: b :: r → a ≠ []) : ∀ seg ∈ withSlashes L, seg.head? ≠ some '/' := by
+  induction L with
+  | nil => simp [withSlashes]
+  | cons a rest ih =>
+    cases rest with
+    | nil =>
+      intro seg hseg
+      simp only [withSlashes, List.mem_singleton] at hseg
+      subst hseg
+      intro hh
+      cases seg with
+      | nil => cases hh
+      | cons c r =>
+        simp only [List.head?_cons, Option.some.injEq] at hh
+        subst hh; exact hs ('/' :: r) (by simp) (by simp)
+    | cons b r =>
+      intro seg hseg
+      simp only [withSlashes, List.mem_cons] at hseg
+      rcases hseg with rfl | hseg
+      · have ha := h1 a b r rfl
+        cases a with
+        | nil => exact absurd rfl ha
+        | cons c r' =>
+          simp only [List.cons_append, List.head?_cons, ne_eq, Option.some.injEq]
+          intro e; subst e; exact hs ('/' :: r') (by simp) (by simp)
+      · apply ih (fun x hx => hs x (by simp [hx])) hi.2 ?_ seg
+        · simpa [withSlashes] using hseg
+        · intro a' b' r' e
+          cases e
+          rcases hi.1 with h | h
+          · exact h
+          · cases h
+
+theorem resolveLoop_bottom (W : List Str) (bot : Str) : ∀ init : List Str,
+    ∃ rest, resolveLoop W (init ++ [bot]) = bot :: rest ∧ ∀ x ∈ rest, x ∈ init ∨ x ∈ W := by
+  induction W with
+  | nil =>
+    intro init
+    refine ⟨init.reverse, by simp [resolveLoop], fun x hx => Or.inl (List.mem_reverse.1 hx)⟩
+  | cons seg rest ih =>
+    intro init
+    unfold resolveLoop
+    split
+    · split
+      · rename_i hlen
+        cases init with
+        | nil => simp at hlen
+        | cons i0 init' =>
+          obtain ⟨r, hr, hmem⟩ := ih init'
+          refine ⟨r, by simpa using hr, fun x hx => ?_⟩
+          rcases hmem x hx with h | h
+          · exact Or.inl (by simp [h])
+          · exact Or.inr (by simp [h])
+      · obtain ⟨r, hr, hmem⟩ := ih init
+        exact ⟨r, hr, fun x hx => (hmem x hx).imp id (fun h => by simp [h])⟩
+    · split
+      · obtain ⟨r, hr, hmem⟩ := ih init
+        exact ⟨r, hr, fun x hx => (hmem x hx).imp id (fun h => by simp [h])⟩
+      · obtain ⟨r, hr, hmem⟩ := ih (seg :: init)
+        refine ⟨r, by simpa using hr, fun x hx => ?_⟩
+        rcases hmem x hx with h | h
+        · simp only [List.mem_cons] at h
+          rcases h with rfl | h
+          · exact Or.inr (by simp)
+          · exact Or.inl h
+        · exact Or.inr (by simp [h])
+
+theorem flatten_head (L : List Str) (h : ∀ x ∈ L, x.head? ≠ some '/') :
+    L.flatten.head? ≠ some '/' := by
+  induction L with
+  | nil => simp
+  | cons a r ih =>
+    cases a with
+    | nil => simpa using ih (fun x hx => h x (by simp [hx]))
+    | cons c a' =>
+      have := h (c :: a') (by simp)
+      simpa using this
+
+/-- `rstrip('/')` of `'/' :: K` when `K` does not start with a slash -/
+theorem rstrip_slash_shape (K : Str) (hK : K.head? ≠ some '/') :
+    rstripChars ('/' :: K) ['/'] = [] ∨
+      ∃ d r, rstripChars ('/' :: K) ['/'] = '/' :: d :: r ∧ d ≠ '/' := by
+  -- the result is a prefix that does not end with a slash
+  have hpre : ∃ t, '/' :: K = rstripChars ('/' :: K) ['/'] ++ t := by
+    unfold rstripChars
+    refine ⟨((('/' :: K).reverse.takeWhile (['/'].contains ·))).reverse, ?_⟩
+    rw [← List.reverse_append, List.takeWhile_append_dropWhile, List.reverse_reverse]
+  obtain ⟨t, ht⟩ := hpre
+  cases hR : rstripChars ('/' :: K) ['/'] with
+  | nil => left; rfl
+  | cons a R' =>
+    right
+    rw [hR] at ht
+    simp only [List.cons_append, List.cons.injEq] at ht
+    obtain ⟨rfl, hK'⟩ := ht
+    cases R' with
+    | nil =>
+      exfalso
+      have := rstripChars_last_s20 ('/' :: K) ['/'] '/' [] (by simpa using hR)
+      simp at this
+    | cons d r =>
+      refine ⟨d, r, rfl, ?_⟩
+      rintro rfl
+      rw [hK'] at hK
+      simp at hK
+
+/-- **shape of `normpath` on an absolute path**: empty, or a slash followed by a non-slash -/
+theorem normpath_abs_shape (q : Str) :
+    normpath ('/' :: q) = [] ∨ ∃ d r, normpath ('/' :: q) = '/' :: d :: r ∧ d ≠ '/' := by
+  unfold normpath
+  have hh := squeeze_head ('/' :: q)
+  have hnd := noDbl_squeeze ('/' :: q)
+  cases hsq : squeezeSlashes ('/' :: q) with
+  | nil => rw [hsq] at hh; simp at hh
+  | cons c s' =>
+    rw [hsq] at hh hnd
+    simp only [List.head?_cons, Option.some.injEq] at hh
+    subst hh
+    rw [splitOn_cons_sep]
+    have hne := splitOn_ne_nil s' '/'
+    cases hsp : splitOn s' '/' with
+    | nil => exact absurd hsp hne
+    | cons a rest =>
+      have hW : withSlashes ([] :: a :: rest) = ['/'] :: withSlashes (a :: rest) := by
+        simp [withSlashes]
+      rw [hW]
+      have hstep : resolveLoop (['/'] :: withSlashes (a :: rest)) [] =
+          resolveLoop (withSlashes (a :: rest)) ([] ++ [['/']]) := by
+        rw [resolveLoop]
+        simp
+      show (rstripChars (resolveLoop (['/'] :: withSlashes (a :: rest)) []).flatten ['/']) = [] ∨
+        ∃ d r, (rstripChars (resolveLoop (['/'] :: withSlashes (a :: rest)) []).flatten ['/']) =
+          '/' :: d :: r ∧ d ≠ '/'
+      rw [hstep]
+      obtain ⟨R, hR, hmem⟩ := resolveLoop_bottom (withSlashes (a :: rest)) ['/'] []
+      rw [hR]
+      simp only [List.flatten_cons, List.singleton_append]
+      apply rstrip_slash_shape
+      apply flatten_head
+      intro x hx
+      rcases hmem x hx with h | h
+      · simp at h
+      · rw [← hsp] at h
+        refine withSlashes_heads (splitOn s' '/') (not_mem_of_mem_splitOn '/' s')
+          (innerNonempty_splitOn s' (noDbl_tail hnd)) ?_ x h
+        intro a' b' r' e
+        -- the first piece is non-empty: `s'` does not start with a slash
+        cases s' with
+        | nil => rw [splitOn_nil] at e; cases e
+        | cons d ds =>
+          have hd : d ≠ '/' := fun e' => hnd.1 ⟨rfl, e'⟩
+          rw [splitOn_cons_ne _ _ _ hd] at e
+          cases h2 : splitOn ds '/' with
+          | nil => rw [h2] at e; cases e
+          | cons p ps => rw [h2] at e; cases e; simp
 
 end Ural.CanonRoundTrip
